@@ -146,7 +146,7 @@ fn run_once_x(case: &Case, sc: &Scratch, tag: &str, faults: &BTreeMap<(String, u
             Op::Flush => sess.borrow().as_ref().unwrap().flush(),
             Op::Advance(ms) => hh.advance(*ms * MS),
             Op::FailWrite(_) => {} // not generated for this property (faults come from its own enumeration)
-            Op::MoveAwayAndReopen | Op::Reopen | Op::ResetSame => {}
+            Op::MoveAwayAndReopen | Op::MoveAwayRecreateAndReopen | Op::Reopen | Op::ResetSame => {}
         }
         if slow_cleanup {
             let fired = !hh.points.lock().unwrap().faults_hit.is_empty();
@@ -417,7 +417,7 @@ fn real_write_failure(case: &Case, sc: &Scratch) -> Result<(bool, String), (Stri
                 }
             }
             Op::Advance(ms) => hh.advance(*ms * MS),
-            Op::MoveAwayAndReopen | Op::Reopen | Op::ResetSame => {}
+            Op::MoveAwayAndReopen | Op::MoveAwayRecreateAndReopen | Op::Reopen | Op::ResetSame => {}
         }
         if guard.is_some() && i + 1 >= start + len {
             guard = None;
